@@ -228,6 +228,66 @@ impl Desc {
 	}
 }
 
+/// Upper bound on the gain (peak of the frequency response; for the clippers the amplitude gain)
+/// an effect can apply.  Used to keep generated feedback loops STABLE where a monitor asserts
+/// finiteness: a loop whose gain reaches 1 grows without bound by design (and `inf * sqrt(0)` is
+/// NaN even in a fully dry mix), which is not what the property's "documented ranges" mean.
+fn gain_bound(d: &Desc) -> f64 {
+	let blend = |wet: f64, mix: f32| -> f64 {
+		let m = (mix as f64).clamp(0.0, 1.0);
+		m.sqrt() * wet + (1.0 - m).sqrt()
+	};
+	let amp = |db: f32| -> f64 {
+		if db <= -60.0 {
+			0.0
+		} else {
+			10f64.powf(db as f64 / 20.0)
+		}
+	};
+	match d {
+		Vol(db) => amp(*db),
+		Pan(_) => std::f64::consts::SQRT_2,
+		Dist { mix, .. } => blend(1.0, *mix),
+		Filter { res, mix, .. } => {
+			let k = 2.0 - 1.9 * res.clamp(0.0, 1.0);
+			blend((std::f64::consts::SQRT_2 / k).max(1.0), *mix)
+		}
+		Eq { gain, q, .. } => amp(gain.abs()) * (1.5 * q).max(1.0),
+		Comp { ratio, mk, mix, .. } => blend(amp(*mk) * if *ratio < 1.0 { f64::INFINITY } else { 1.0 }, *mix),
+		Reverb { fb, mix, .. } => {
+			if *fb >= 1.0 {
+				f64::INFINITY
+			} else {
+				blend(0.015 * 2.0 * 8.0 / (1.0 - fb) * (2.5f64 / 1.5).powi(4), *mix)
+			}
+		}
+		Delay { fb, mix, fx, .. } => {
+			let l = amp(*fb) * fx.iter().map(gain_bound).product::<f64>();
+			if l >= 1.0 {
+				f64::INFINITY
+			} else {
+				blend(l / (1.0 - l), *mix)
+			}
+		}
+	}
+}
+/// lower the feedback of every (nested) delay until its loop gain bound is at most 0.9
+fn stabilize(d: &mut Desc) {
+	if let Delay { fb, fx, .. } = d {
+		for c in fx.iter_mut() {
+			if let Reverb { fb, .. } = c {
+				*fb = fb.min(0.9);
+			}
+			stabilize(c);
+		}
+		let b: f64 = fx.iter().map(gain_bound).product();
+		let max_db = (20.0 * (0.9 / b.max(1e-9)).log10()) as f32;
+		if !(*fb <= max_db) {
+			*fb = max_db.min(0.0) - 0.01;
+		}
+	}
+}
+
 /// a builder wrapper so that a `Desc` can be added to a delay's feedback loop
 struct Boxed(Desc);
 impl EffectBuilder for Boxed {
@@ -573,7 +633,7 @@ pub fn run(args: &Args) {
 	let cx = Ctx { info: MockInfoBuilder::new().build() };
 
 	// =============================================================== model cases (bit-exact)
-	let per_kind: usize = (if args.thorough { 160 } else { 26 }) * mul;
+	let per_kind: usize = (if args.thorough { 300 } else { 45 }) * mul;
 	// --- every effect kind on its own, documented ranges, all signal kinds, all rates
 	for kind in 0..8u64 {
 		for i in 0..per_kind {
@@ -688,8 +748,8 @@ pub fn run(args: &Args) {
 	}
 
 	// =============================================================== monitors on long signals
-	let reps: usize = (if args.thorough { 40 } else { 5 }) * mul;
-	let long_n: usize = if args.thorough { 6000 } else { 2500 };
+	let reps: usize = (if args.thorough { 200 } else { 25 }) * mul;
+	let long_n: usize = if args.thorough { 12000 } else { 4000 };
 
 	// --- partition independence, bit-exact
 	for i in 0..reps * 10 {
@@ -742,6 +802,8 @@ pub fn run(args: &Args) {
 				break d;
 			}
 		};
+		let mut d = d;
+		stabilize(&mut d);
 		check_identity(&mut s, &d.with_mix(0.0), sr, &input, "dry mix");
 		check_identity(&mut s, &Vol(0.0), sr, &input, "0 dB volume");
 		check_identity(&mut s, &Pan(0.0), sr, &input, "centre panning");
@@ -799,6 +861,8 @@ pub fn run(args: &Args) {
 				break d;
 			}
 		};
+		let mut d = d;
+		stabilize(&mut d);
 		let n = long_n;
 		let x = noise(&mut rng, n, 0.5);
 		let y = if i % 2 == 0 { noise(&mut rng, n, 0.5) } else { gen_signal(&mut rng, n).0 };
@@ -810,6 +874,9 @@ pub fn run(args: &Args) {
 			(Outcome::Ok(ox), Outcome::Ok(oy), Outcome::Ok(oz)) => {
 				let mut peak: f64 = 1e-30;
 				for i in 0..n {
+					// scale of the signals involved: inputs as well as outputs (a high-pass at Nyquist
+					// outputs only the rounding noise of a full-scale cancellation)
+					peak = peak.max((zsig[i].left as f64).abs()).max((zsig[i].right as f64).abs());
 					peak = peak.max((ox[i].left as f64 * a as f64).abs() + (oy[i].left as f64 * b as f64).abs());
 					peak = peak.max((ox[i].right as f64 * a as f64).abs() + (oy[i].right as f64 * b as f64).abs());
 					peak = peak.max((oz[i].left as f64).abs()).max((oz[i].right as f64).abs());
@@ -871,11 +938,10 @@ pub fn run(args: &Args) {
 		edge.push((Pan(1.0), sr));
 		edge.push((Pan(-1.0), sr));
 	}
-	for (k, (d, sr)) in edge.iter().enumerate() {
-		// the quick tier soaks a third of the edge set per run (rotating with the seed)
-		if !args.thorough && (k as u64 + args.seed) % 3 != 0 {
-			continue;
-		}
+	for (d, _) in edge.iter_mut() {
+		stabilize(d);
+	}
+	for (d, sr) in edge.iter() {
 		let input = full_scale_noise(&mut rng, soak);
 		s.eval_only("mon_finite_soak");
 		match run_effect(&cx, d, *sr, 512, &vec![512; soak / 512 + 1], &input) {
